@@ -380,7 +380,29 @@ pub fn gen_graph_project(rng: &mut Rng, tier: Tier, ptr: usize) -> Project {
                 p.modules[m].extra_uses.push(line);
             }
             let idx = p.items.len();
-            let (fields, impl_funcs) = match rng.below(4) {
+            // Sometimes the owner itself embeds the type that points at its vftable type: as a
+            // plain field or as a base. Still no by-value cycle (the mention is a pointer).
+            let embed_in_owner = rng.chance(1, 3);
+            if embed_in_owner {
+                let as_base = rng.chance(1, 2);
+                let front = rng.chance(1, 2);
+                if let ItemKind::Type { fields, .. } = &mut p.items[t].kind {
+                    let f = Field {
+                        base: as_base,
+                        ..crate::props::c09::field(&format!("user{idx}"), Ty::Item(idx))
+                    };
+                    if as_base && front {
+                        fields.insert(0, f);
+                    } else if as_base {
+                        // bases stay in front of plain fields
+                        let at = fields.iter().take_while(|f| f.base).count();
+                        fields.insert(at, f);
+                    } else {
+                        fields.push(f);
+                    }
+                }
+            }
+            let (fields, impl_funcs) = match if embed_in_owner { 0 } else { rng.below(4) } {
                 0 => (vec![crate::props::c09::field("table", vty.cptr())], vec![]),
                 1 => (vec![crate::props::c09::field("table", vty)], vec![]),
                 _ => {
